@@ -422,9 +422,10 @@ def corpus(tier):
         plan = [("tiny", 1, '{"NL"}', None, "exhaustive: one-argument programs x every placement of a line break"),
                 ("core", 2, ALL_LAYOUTS, "num=250", "simulation: two-command programs, all value kinds, all layout kinds")]
     else:
-        plan = [("tiny", 1, '{"NL", "SP"}', None, "exhaustive: one-argument programs x every placement of a line break or space"),
-                ("core", 2, ALL_LAYOUTS, "num=2500", "simulation: two-command programs"),
-                ("rich", 2, ALL_LAYOUTS, "num=2500", "simulation: three-command programs, nested lists")]
+        plan = [("tiny", 1, '{"NL"}', None, "exhaustive: one-argument programs x every placement of a line break"),
+                ("tiny", 2, '{"CRNL", "CMT"}', "num=400", "simulation: one-argument programs, up to two CRLF / comment items per gap"),
+                ("core", 2, ALL_LAYOUTS, "num=1200", "simulation: two-command programs"),
+                ("rich", 2, ALL_LAYOUTS, "num=600", "simulation: three-command programs, nested lists")]
     out = []
     res = [None] * len(plan)
 
@@ -445,7 +446,7 @@ def corpus(tier):
 def check_renderings(chk, tier, want_ast=True, want_lines=True, want_corrupt=True):
     """shared by C10 and C11: every rendering TLC produced is parsed by the real parser"""
     sets = corpus(tier)
-    nvariants = 2 if tier == "quick" else 4
+    nvariants = 2 if tier == "quick" else 3
     texts, meta = [], []
     for r, label, renders in sets:
         chk.add_tlc(label, r, "invariants RoundTrip, LinesTrue, CorruptionRejected, VersionByText")
